@@ -25,9 +25,9 @@ RULE = ("(a) documents written from a random tree model by an independent writer
         "marked sections, processing instructions (content empty and whitespace-only included), script/style raw text, pre/textarea, ruby/template containers, "
         "random whitespace and newlines; (b) exhaustive: every concatenation of <= 4 (quick) / <= 5 (thorough) pieces "
         "of {<br>, <br/>, </br>, <p>, </p>, <p/>, x, blank, <!--c-->}; (c) malformed: token soup and character-level "
-        "mutations of (a); each under 9 builder configurations (default; on_duplicate_attribute replace / ignore / "
+        "mutations of (a); each under 11 builder configurations (default; on_duplicate_attribute replace / ignore / "
         "callable; multi_valued_attributes None / custom; custom string_containers; custom preserve_whitespace_tags; "
-        "custom and None empty_element_tags; store_line_numbers off). Non-trivial: the tree has >= 3 nodes. Distinct "
+        "custom, None and EMPTY empty_element_tags; string_containers mapping to PreformattedString classes; store_line_numbers off); plus whitespace-centred documents (multi-character whitespace-only text, lone tab/CR/FF, elements nested in elements of the same whitespace-preserving / container name) and all concatenations of <= 4/5 pieces of {<pre>, </pre>, <b>, </b>, blank+tab, two newlines, x}. Non-trivial: the tree has >= 3 nodes. Distinct "
         "by (configuration, markup).")
 ASSUMPTIONS = [
     "the standard-library tokenizer (html.parser.HTMLParser, convert_charrefs=False) is not modelled: its callback "
@@ -84,6 +84,12 @@ CONFIGS = [
               void=["br", "p", "xv"], store=False),
     mk_config("void-none", {"empty_element_tags": None, "preserve_whitespace_tags": set(), "string_containers": {}},
               void=None, pw=[], cont={}),
+    # an EMPTY collection says "no element is void" (None says "any childless element may be")
+    mk_config("void-empty", {"empty_element_tags": set()}, void=[]),
+    # string_containers only chooses the CLASS of the text, also when that class is a PreformattedString subclass:
+    # whitespace-only text is still text
+    mk_config("containers-preformatted", {"string_containers": {"b": CData, "p": Comment, "pre": CData, "td": Declaration}},
+              cont={"b": 1, "p": 4, "pre": 1, "td": 5}),
 ]
 CONFIG = {c["name"]: c for c in CONFIGS}
 
@@ -555,6 +561,10 @@ def gen_nodes(rng, c, depth, budget):
         elif r < 0.62:
             pool = VOIDS_GEN if c["void"] is not None else VOIDS_GEN + ELEMS
             pool = [x for x in pool + (["xv", "p"] if c["void"] and "xv" in c["void"] else []) if is_void(c, x)]
+            if not pool:                      # a configuration without void elements: the tag is an ordinary element
+                pool2 = [x for x in VOIDS_GEN + ELEMS if not is_void(c, x)]
+                out.append(["elem", rng.choice(pool2), gen_attrs(rng), []])
+                continue
             out.append(["void", rng.choice(pool), gen_attrs(rng)])
         elif r < 0.67 and c["void"] is not None:
             raw = rng.choice(RAWS)
@@ -574,6 +584,45 @@ def gen_nodes(rng, c, depth, budget):
         else:
             merged.append(x)
     return merged
+
+
+WS_TEXTS = ["  ", " \t", "\n\n", "\n ", "\t", "\r", "\x0c", " \n ", "   ", " ", "\n"]
+
+
+def gen_ws_nodes(rng, c, depth, parent, budget):
+    """Documents about the whitespace and string-class rules: whitespace-only text of several characters (and lone
+    tab / CR / FF) between and inside elements drawn from the configuration's whitespace-preserving names, its
+    string-container names and two plain ones, with an element often nested in another of the SAME name."""
+    pool = [n for n in dict.fromkeys(list(c["pw"]) + list(c["cont"]) + ["pre", "b", "div", "p"])
+            if not is_void(c, n) and n not in RAWS]
+    out = []
+    for _ in range(rng.randint(1, 4)):
+        if budget[0] <= 0:
+            break
+        budget[0] -= 1
+        r = rng.random()
+        if r < 0.42:
+            out.append(["text", rng.choice(WS_TEXTS)])
+        elif r < 0.50:
+            out.append(["text", rng.choice(["x", "a b", " x "])])
+        elif r < 0.56:
+            out.append(["comment", rng.choice(["", " ", "\n\n", "c", " \t"])])
+        elif pool and depth < 4:
+            name = parent if (parent in pool and rng.random() < 0.45) else rng.choice(pool)
+            out.append(["elem", name, [], gen_ws_nodes(rng, c, depth + 1, name, budget)])
+        else:
+            out.append(["text", rng.choice(WS_TEXTS)])
+    merged = []
+    for x in out:
+        if x[0] == "text" and merged and merged[-1][0] == "text":
+            merged[-1] = ["text", merged[-1][1] + x[1]]
+        else:
+            merged.append(x)
+    return merged
+
+
+def gen_ws_doc(rng, c):
+    return gen_ws_nodes(rng, c, 0, None, [rng.choice([5, 9, 14])])
 
 
 def gen_doc(rng, c, size=None):
@@ -1089,12 +1138,17 @@ def reference_cases(ctx):
 
 # ------------------------------------------------------------------ run
 PIECES = ["<br>", "<br/>", "</br>", "<p>", "</p>", "<p/>", "x", " ", "<!--c-->"]
+WS_PIECES = ["<pre>", "</pre>", "<b>", "</b>", " \t", "\n\n", "x"]
 CORPUS = [
     ("default", "<p><br>a<br/>b</p>"),            # fixed defect: the second br swallowed "b"
     ("default", "<br><br/>x</br>y"),
     ("void-custom", "<xv>a<xv/>b</xv>c"),
     ("default", "<p><br/>a<br>b</br>c</p>"),
     ("void-none", "<a>x<b/>y</a>z"),
+    ("default", "<pre><pre>a</pre>  \n  </pre>"),             # nested same-name whitespace-preserving elements
+    ("containers-custom", "<span><span></span> \t </span><p><p></p>\n\n</p>"),
+    ("containers-preformatted", "<b>  \n </b><p>\t</p><td>   </td>x<pre>  </pre>"),
+    ("void-empty", "<p>text<br>more</br>end</p>"),
 ]
 
 
@@ -1122,11 +1176,18 @@ def run(ctx):
             b.add(CONFIG["default"], m, "exhaustive")
             if n <= L - 1:
                 b.add(CONFIG["void-custom"], m, "exhaustive")
+    LW = 5 if ctx.thorough else 4
+    for n in range(1, LW + 1):
+        for combo in itertools.product(WS_PIECES, repeat=n):
+            m = "".join(combo)
+            b.add(CONFIG["default"], m, "exhaustive")
+            b.add(CONFIG["containers-preformatted"], m, "exhaustive")
     ctx.extra_cov["exhaustive"] = True
     ctx.extra_cov["exhaustive_scope"] = ("all concatenations of <= %d pieces of %r (default configuration; <= %d under "
-                                         "empty_element_tags={br,p,xv})" % (L, PIECES, L - 1))
+                                         "empty_element_tags={br,p,xv}); all concatenations of <= %d pieces of %r (default "
+                                         "and PreformattedString string_containers)" % (L, PIECES, L - 1, LW, WS_PIECES))
     # (a) written documents
-    n_docs = 4000 if ctx.thorough else 330
+    n_docs = 3600 if ctx.thorough else 280
     sampled = 0
     for i in range(n_docs):
         for c in CONFIGS:
@@ -1139,6 +1200,10 @@ def run(ctx):
             # (c) mutations of it
             if i % 2 == 0:
                 b.add(c, mutate(rng, markup), "mutated")
+            if i % 2 == 1:
+                doc = gen_ws_doc(rng, c)
+                markup, dn, tags = write_doc(rng, c, doc)
+                b.add(c, markup, "written", doc=doc, written=(dn, tags))
     # empty / whitespace-only special strings keep their content (fixed defect 3cf9718): witnesses, with their documents
     for m, d in WS_SPECIAL:
         b.add(CONFIG["default"], m, "corpus", doc=d)
